@@ -1,9 +1,12 @@
 package rules
 
 import (
+	"go/ast"
 	"regexp"
 	"sort"
 	"strings"
+
+	"verif/checker/eng"
 )
 
 // lockHeldAcrossChannelOp (C09.28 / C15.25 / C06.31): a goroutine that blocks
@@ -99,6 +102,56 @@ func deferredReleaseNotInLoop(c *cx, id string) int {
 				continue
 			}
 			c.r.Check(id, f, "deferred release of "+cls, "O: a deferred Unlock is not inside a loop (it would hold the mutex across iterations, until the function returns)", d.Pos(), !g.Reachable(g.After(pt), pt, nil, nil), "the defer statement lies in a loop: after the first iteration the mutex stays held, and the next Lock or locking accessor of this goroutine blocks for ever")
+		}
+	}
+	return n
+}
+
+// deferredReleaseFindsTheLockHeld (C09.35 / C06.39 / C15.34): a deferred
+// Unlock runs at every return after the defer statement. A function that
+// releases the mutex in between (around a wait) and takes it again holds it at
+// every such return: the must-lockset at the return contains the class of
+// every deferred release that precedes it. A new exit from the middle of the
+// unlocked region ("the read deadline has passed") returns with the mutex not
+// held: the deferred Unlock then panics (sync: unlock of unlocked mutex) or
+// releases the lock another goroutine has just taken.
+func deferredReleaseFindsTheLockHeld(c *cx, id, pkgPrefix string) int {
+	n := 0
+	for _, f := range c.allFns() {
+		if pkgPrefix != "" && !strings.HasPrefix(f.Short, pkgPrefix) {
+			continue
+		}
+		// the closer types hold their lock from construction (TokenWriter /
+		// TokenReader take it): their Close releases what the handle holds (C05.2)
+		if f.Short == "xmpp.(*lockWriteCloser).Close" || f.Short == "xmpp.(*lockReadCloser).Close" {
+			continue
+		}
+		g := f.Graph()
+		var li interface {
+			AtNode(n ast.Node) (eng.LockSet, bool)
+		}
+		for _, d := range g.Defers {
+			op, cls, _ := f.LockOp(d.Call)
+			if op != -1 {
+				continue
+			}
+			dp, ok := g.Where(d)
+			if !ok {
+				continue
+			}
+			if li == nil {
+				li = g.Locks(nil)
+			}
+			for _, rs := range g.Returns {
+				rp, ok := g.Where(rs)
+				if !ok || !g.Reachable(g.After(dp), rp, nil, nil) {
+					continue
+				}
+				n++
+				ls, ok := li.AtNode(rs)
+				held := ok && ls.Has(cls, false)
+				c.r.Check(id, f, "return with a deferred release of "+cls+" pending", "L: the mutex a deferred Unlock will release is held at the return", rs.Pos(), held, "the return is reached with "+cls+" possibly not held: the deferred Unlock hits an unlocked mutex (or another goroutine's critical section)")
+			}
 		}
 	}
 	return n
